@@ -86,6 +86,54 @@ func evalInt(p *core.Prog, e *core.Expr, lookup func(*core.Expr) (int64, bool)) 
 			return 0, false
 		}
 		return wrap(e, r), true
+	case "phi":
+		// a value selected by control flow: take the edge whose conditions hold
+		// under the assignment (exactly one edge must qualify)
+		ph, ok := e.Val.(*ssa.Phi)
+		if !ok {
+			return 0, false
+		}
+		found := false
+		var out int64
+		// conditions every edge shares say nothing about which edge is taken
+		count := map[string]int{}
+		for i := range ph.Edges {
+			seen := map[string]bool{}
+			for _, f := range p.EdgeFacts(ph.Block().Preds[i], ph.Block()) {
+				if !seen[f.String()] {
+					seen[f.String()] = true
+					count[f.String()]++
+				}
+			}
+		}
+		for i, edge := range ph.Edges {
+			holds := true
+			for _, f := range p.EdgeFacts(ph.Block().Preds[i], ph.Block()) {
+				if count[f.String()] == len(ph.Edges) {
+					continue
+				}
+				t, known := evalFact(p, f, lookup)
+				if !known {
+					return 0, false
+				}
+				if !t {
+					holds = false
+					break
+				}
+			}
+			if !holds {
+				continue
+			}
+			v, ok := evalInt(p, p.X(edge), lookup)
+			if !ok || found && v != out {
+				return 0, false
+			}
+			found, out = true, v
+		}
+		if !found {
+			return 0, false
+		}
+		return wrap(e, out), true
 	case "call":
 		switch e.Name {
 		case "min", "max":
@@ -133,4 +181,31 @@ func wrap(e *core.Expr, v int64) int64 {
 		return int64(int32(v))
 	}
 	return v
+}
+
+// evalFact evaluates a comparison fact under the assignment.
+func evalFact(p *core.Prog, f core.Fact, lookup func(*core.Expr) (int64, bool)) (val, known bool) {
+	if f.R == nil {
+		return false, false
+	}
+	a, ok1 := evalInt(p, f.L, lookup)
+	b, ok2 := evalInt(p, f.R, lookup)
+	if !ok1 || !ok2 {
+		return false, false
+	}
+	switch f.Op {
+	case "==":
+		return a == b, true
+	case "!=":
+		return a != b, true
+	case "<":
+		return a < b, true
+	case "<=":
+		return a <= b, true
+	case ">":
+		return a > b, true
+	case ">=":
+		return a >= b, true
+	}
+	return false, false
 }
